@@ -48,6 +48,7 @@ type env struct {
 const (
 	pHTTP = iota // backend 127.0.0.1:pHTTP
 	pNP          // http backend 127.0.0.2:pNP ; proxy port pNP with a port-less director
+	pNP2         // a second listening port of the same service and director: backend 127.0.0.2:pNP2
 	pRaw         // raw tcp + udp backend
 	pDecoy
 	pSSH
@@ -62,7 +63,7 @@ const (
 func startEnv(out string) *env {
 	e := &env{ports: lab.FreePorts(nPorts)}
 	var err error
-	if e.httpBE, err = newHTTPBackend(fmt.Sprintf("127.0.0.1:%d", e.ports[pHTTP]), fmt.Sprintf("127.0.0.2:%d", e.ports[pNP])); err != nil {
+	if e.httpBE, err = newHTTPBackend(fmt.Sprintf("127.0.0.1:%d", e.ports[pHTTP]), fmt.Sprintf("127.0.0.2:%d", e.ports[pNP]), fmt.Sprintf("127.0.0.2:%d", e.ports[pNP2])); err != nil {
 		hx.Fatal("http backend: %v", err)
 	}
 	if e.rawBE, err = newRawBackend(fmt.Sprintf("127.0.0.1:%d", e.ports[pRaw])); err != nil {
@@ -111,6 +112,7 @@ func startEnv(out string) *env {
 	sb.WriteString("[service.sp]\ntype=\"ssh-proxy\"\ndirector=\"fwdssh\"\n\n")
 	sb.WriteString("[[port]]\nport=\"tcp/8080\"\nservices=[\"hp\"]\n\n")
 	fmt.Fprintf(&sb, "[[port]]\nport=\"tcp/%d\"\nservices=[\"hpnp\"]\n\n", e.ports[pNP])
+	fmt.Fprintf(&sb, "[[port]]\nport=\"tcp/%d\"\nservices=[\"hpnp\"]\n\n", e.ports[pNP2])
 	sb.WriteString("[[port]]\nport=\"tcp/7000\"\nservices=[\"cp\"]\n\n")
 	fmt.Fprintf(&sb, "[[port]]\nport=\"tcp/%d\"\nservices=[\"cp\"]\n\n", e.ports[pCopyL])
 	fmt.Fprintf(&sb, "[[port]]\nport=\"tcp/%d\"\nservices=[\"dp\"]\n\n", e.ports[pDNSL])
@@ -141,7 +143,7 @@ func startEnv(out string) *env {
 	e.l = l
 	// test aid for seeded mutations of /repo: where the decoy listens
 	os.Setenv("C15_DECOY_PORT", fmt.Sprint(e.ports[pDecoy]))
-	e.h = &httpEnv{l: l, be: e.httpBE, port: 8080, portNP: e.ports[pNP], decoy: e.decoy, idleDur: 2500 * time.Millisecond}
+	e.h = &httpEnv{l: l, be: e.httpBE, port: 8080, portNP: e.ports[pNP], portNP2: e.ports[pNP2], portBE: e.ports[pHTTP], decoy: e.decoy, idleDur: 2500 * time.Millisecond}
 	return e
 }
 
@@ -318,7 +320,7 @@ func genHTTPInputs(o hx.Opts, r *hx.Rand) []HttpInput {
 	{
 		// the exchange after n good ones fails, in every way x every way of writing the stream
 		k := 0
-		for _, how := range []string{"fin", "rst", "bad", "cut"} {
+		for _, how := range []string{"fin", "rst", "bad", "cut", "noreply", "garbage", "cutreply"} {
 			reps := 4
 			if o.Tier != "quick" {
 				reps = 16
